@@ -180,6 +180,12 @@ class Application(object):
                 # we wrap it ourselves
                 ctx.out_object = [ctx.out_object]
 
+            elif ctx.out_object is None:
+                # a method with several return values that returns nothing
+                # returns a null for each of them.
+                ctx.out_object = (None,) * \
+                                   len(ctx.descriptor.out_message._type_info)
+
             # Now that the processing is switched to the outgoing message,
             # point ctx.protocol to ctx.out_protocol
             ctx.protocol = ctx.outprot_ctx
